@@ -7,6 +7,7 @@
 -/
 import EEM.Carrier
 import EEM.Gen.SafeDivide
+import EEM.Model.MetricBase
 
 namespace EEM.Model.Metrics
 open EEM EEM.ArithNotation
@@ -85,6 +86,14 @@ def pnrmse (ps : List (α × α)) : Option α := Gen.safe_divide (rmse ps) (iqr 
 def pnrmseAdj (ps : List (α × α)) (k : Nat) : Option α := Gen.safe_divide (rmseAdj ps k) (iqr (obs ps)) minDenominator
 def nmae (ps : List (α × α)) : Option α := Gen.safe_divide (mae ps) (mean (obs ps)) minDenominator
 def nmbe (ps : List (α × α)) : Option α := Gen.safe_divide (mbe ps) (mean (obs ps)) minDenominator
+
+/-- the base quantities of a series of finite (observed, predicted) pairs, as the hand model
+computes them; `nPrime` (the autocorrelation-corrected n) is left as a parameter -/
+def baseOf (ps : List (α × α)) (k : Nat) (nPrime : α) : MetricBase α :=
+  { n := nOf ps, num_model_params := Arith.ofNat k, min_denominator := minDenominator,
+    mae := mae ps, r_squared := rSquared ps, n_prime := nPrime,
+    observed_mean := mean (obs ps), observed_iqr := iqr (obs ps),
+    residuals_mean := mean (resid ps), residuals_sum_squared := sse ps }
 
 /-- lag-1 autocorrelation of the residuals -/
 def autocorr1 (ps : List (α × α)) : α :=
